@@ -482,6 +482,9 @@ BIN_PREC = {
 }
 
 
+_NUM_TYPES = {"usize", "isize", "u8", "u16", "u32", "u64", "u128", "i8", "i16", "i32", "i64", "i128", "f32", "f64"}
+
+
 def unparse(e):
     """A compact, canonical rendering of an expression / pattern / statement.
     Used for messages and for sibling diffing; not guaranteed to be valid Rust."""
@@ -511,6 +514,10 @@ def unparse(e):
     if k == "Index":
         return "%s[%s]" % (u(e["e"]), u(e["index"]))
     if k == "Call":
+        f_ = e["func"]
+        if len(e["args"]) == 1 and f_.get("k") == "Path" and len(f_.get("segs", [])) == 2 and f_["segs"][1] == "from" and f_["segs"][0] in _NUM_TYPES:
+            # the lossless conversion `u32::from(x)` denotes the same value as `x as u32`
+            return "(%s as %s)" % (u(e["args"][0]), f_["segs"][0])
         return "%s(%s)" % (u(e["func"]), u(e["args"]))
     if k == "MethodCall":
         return "%s.%s%s(%s)" % (u(e["recv"]), e["method"], e.get("turbofish", "").replace(" ", ""), u(e["args"]))
@@ -1386,7 +1393,7 @@ def inline_simple_lets(stmts, multi=False, mut_names=None, ro_self=False, pure_c
                 # "naming" lets only: places, references, getters and arithmetic - never the result of real work
                 if init is None or any(x.get("k") in ("Closure", "Macro", "If", "Match", "Block", "Unsafe", "Try") for x in walk(init)):
                     continue
-                if any(x.get("k") == "MethodCall" and x["args"] and x["method"] not in _SIMPLE_METHODS and x["method"] not in ("div_ceil", "pow", "saturating_sub", "wrapping_add", "rem_euclid") for x in walk(init)):
+                if any(x.get("k") == "MethodCall" and x["args"] and x["method"] not in _SIMPLE_METHODS and x["method"] not in ("div_ceil", "pow", "saturating_sub", "wrapping_add", "rem_euclid", "unwrap_or") for x in walk(init)):
                     continue
                 if any(x.get("k") == "MethodCall" and x["method"] in _IMPURE_METHODS for x in walk(init)):
                     continue
@@ -1472,6 +1479,73 @@ def some_binding(pat):
         if segs and segs[-1] == "Some" and subs and len(subs) == 1:
             return binding_name(subs[0])
     return None
+
+
+def _diverge_kind(e):
+    """'Continue' / 'Return' / 'Break' / 'panic' when the expression (or block) does nothing but diverge, else None"""
+    e = unblock(e) if isinstance(e, dict) else e
+    e = strip(e) if isinstance(e, dict) else e
+    if not isinstance(e, dict):
+        return None
+    if e.get("k") == "Block":
+        st = e.get("stmts", [])
+        if len(st) != 1:
+            return None
+        e = strip(stmt_expr(st[0]) or {})
+    if e.get("k") in ("Continue", "Return", "Break"):
+        return e["k"]
+    if e.get("k") == "Macro" and e.get("name") in ("panic", "unreachable", "unimplemented", "todo"):
+        return "panic"
+    return None
+
+
+def variant_lets(root, variant):
+    """statements that bind the payload of enum variant `variant` from a scrutinee and diverge otherwise, in
+    any of their spellings:
+        let V(a) = e else { continue };
+        let a = match e { V(x) => x, _ => continue };
+        let a = if let V(x) = e { x } else { continue };
+    -> [(bound names, scrutinee node, diverge kind, statement)]"""
+    out = []
+    for s in find(root, "Let"):
+        init = s.get("init")
+        if init is None:
+            continue
+        p = s["pat"]["pat"] if s["pat"].get("k") == "PType" else s["pat"]
+        if s.get("else") is not None and p.get("k") == "PTupleStruct":
+            segs, subs = pat_variant(p)
+            dk = _diverge_kind(s["else"])
+            if segs and segs[-1] == variant and dk:
+                out.append(([binding_name(x) for x in subs or []], init, dk, s))
+            continue
+        name = binding_name(p)
+        if not name:
+            continue
+        e = strip(init)
+        cases = []  # (pattern, body)
+        scrut = None
+        if e.get("k") == "Match":
+            scrut = e["e"]
+            cases = [(a["pat"], a["body"]) for a in e["arms"] if not a.get("guard")]
+            if len(cases) != len(e["arms"]):
+                continue
+        elif e.get("k") == "If" and strip(e["cond"]).get("k") == "LetCond" and e.get("else") is not None:
+            c = strip(e["cond"])
+            scrut = c["e"]
+            cases = [(c["pat"], e["then"]), ({"k": "PWild"}, e["else"])]
+        else:
+            continue
+        hit, dks = None, set()
+        for pat, body in cases:
+            segs, subs = pat_variant(pat) if pat.get("k") == "PTupleStruct" else (None, None)
+            b = unblock(body)
+            if segs and segs[-1] == variant and subs and len(subs) == 1 and ident(strip(b)) == binding_name(subs[0]) and hit is None:
+                hit = True
+            else:
+                dks.add(_diverge_kind(body))
+        if hit and len(dks) == 1 and None not in dks:
+            out.append(([name], scrut, dks.pop(), s))
+    return out
 
 
 def option_source(e):
@@ -1835,16 +1909,65 @@ def inline_helpers(fn, depth=2, max_lines=60, keep=(), private_only=True):
     that helper's body (a block), its parameters replaced by the call's arguments.  Rules that walk the
     syntax tree (conditions, calls, loops) then see the same facts whether or not a maintainer extracted
     part of the function.  The copy's nodes keep `ln` of the helper for messages."""
+    _clos = {}
+
+    def closures_of(cur):
+        """local closures `let [mut] f = |a, b| body;` of a function that are never re-bound: name -> closure"""
+        if id(cur) not in _clos:
+            tbl, dup = {}, set()
+            for s_ in find(cur.get("body") or {}, "Let"):
+                nm = binding_name(s_["pat"])
+                init = strip(s_.get("init")) if s_.get("init") is not None else None
+                if nm and init is not None and init.get("k") == "Closure":
+                    if nm in tbl:
+                        dup.add(nm)
+                    tbl[nm] = (s_, init)
+                elif nm and nm in tbl:
+                    dup.add(nm)
+            # only a closure that is *called* everywhere it is named: one passed on as a value stays a value
+            body_ = cur.get("body") or {}
+            for nm in list(tbl):
+                called = sum(1 for c_ in find(body_, "Call") if path_segs(c_["func"]) == [nm])
+                named = sum(1 for p_ in find(body_, "Path") if path_segs(p_) == [nm])
+                if called == 0 or named != called:
+                    dup.add(nm)
+            _clos[id(cur)] = {k_: v_ for k_, v_ in tbl.items() if k_ not in dup}
+        return _clos[id(cur)]
+
     def expand(node, cur, d):
         if isinstance(node, list):
             return [expand(x, cur, d) for x in node]
         if not isinstance(node, dict):
             return node
+        if node.get("k") == "Block" and closures_of(cur):
+            # the `let f = |..| ..;` of a closure that is expanded at its calls
+            lets = {id(v_[0]) for v_ in closures_of(cur).values()}
+            if any(id(s_) in lets for s_ in node.get("stmts", [])):
+                node = dict(node, stmts=[s_ for s_ in node["stmts"] if id(s_) not in lets or len(max_lines_ok(s_)) == 0])
         out = {k: (expand(v, cur, d) if isinstance(v, (dict, list)) and k != "tokens" else v) for k, v in node.items()}
         if d <= 0:
             return out
         name = args = None
         recv = None
+        if out.get("k") == "Call":
+            segs = path_segs(out["func"])
+            cl = closures_of(cur).get(segs[0]) if segs and len(segs) == 1 else None
+            if cl is not None and max_lines_ok(cl[0]):
+                c_ = cl[1]
+                params = [binding_name(p_) for p_ in c_.get("inputs", [])]
+                if len(params) == len(out["args"]) and None not in params:
+                    body = c_["body"]
+                    if strip(body).get("k") != "Block":
+                        body = {"k": "Block", "ln": c_.get("ln"), "le": c_.get("le"), "stmts": [{"k": "ExprStmt", "e": body, "semi": False, "ln": c_.get("ln")}]}
+                    else:
+                        body = strip(body)
+                    for p, a in zip(params, out["args"]):
+                        a2 = strip(a)
+                        if a2 is not None and ident(a2) != p and not any(x.get("k") in ("Closure", "Block", "Macro") for x in walk(a2)):
+                            body = _subst(body, p, a2)
+                    body = dict(expand(body, cur, d - 1))
+                    body["_inlined"] = segs[0]
+                    return body
         if out.get("k") == "MethodCall" and ident(strip(out["recv"])) == "self":
             name, args = out["method"], out["args"]
         elif out.get("k") == "MethodCall" and ident(strip(out["recv"])):
@@ -1879,6 +2002,10 @@ def inline_helpers(fn, depth=2, max_lines=60, keep=(), private_only=True):
         body = dict(body)
         body["_inlined"] = name
         return body
+
+    def max_lines_ok(let_stmt):
+        c_ = strip(let_stmt["init"])
+        return [1] if (c_.get("le", 0) - c_.get("ln", 0)) <= max_lines else []
 
     return expand(fn["body"], fn, depth)
 
